@@ -217,7 +217,8 @@ func H_groups() {
 	verifReach("groups")
 }
 
-var verifTexts = [...]string{"", "a", "a\n", "  a  ", "a\nb", "a\nb\n", "a\n\nb", "\n\na\nb\n\n", "a\nc", "b", " ", "a\nb\nc\nd\ne\nf\ng\nh\ni", "a\nb\nc\nd\nX\nf\ng\nh\ni"}
+var verifTexts = [...]string{"", "a", "a\n", "  a  ", "a\nb", "a\nb\n", "a\n\nb", "\n\na\nb\n\n", "a\nc", "b", " ",
+	"a\nb\r\n", "\ta\f", "\va\u00a0", "\u0085a\u2003", "\r\n", "a\nb\nc\nd\ne\nf\ng\nh\ni", "a\nb\nc\nd\nX\nf\ng\nh\ni"}
 
 func H_diff_entry() {
 	have := verifTexts[verifChoose("have", len(verifTexts))]
